@@ -32,8 +32,8 @@ pub fn parse_entry(scope: &Scope, entry: &str, text: &str, input: Option<&str>) 
 
 /// Parses and evaluates one text in the given scope; catches panics itself so that one text of a
 /// batch cannot hide the others.
-fn eval_one(scope: &Scope, entry: &str, text: &str, input: Option<&str>, reps: usize, want_ast: bool) -> J {
-  let r = std::panic::catch_unwind(std::panic::AssertUnwindSafe(|| eval_one_inner(scope, entry, text, input, reps, want_ast)));
+fn eval_one(scope: &Scope, entry: &str, text: &str, input: Option<&str>, reps: usize, want_ast: bool, warm: Option<&Scope>) -> J {
+  let r = std::panic::catch_unwind(std::panic::AssertUnwindSafe(|| eval_one_inner(scope, entry, text, input, reps, want_ast, warm)));
   match r {
     Ok(j) => j,
     Err(_) => {
@@ -43,7 +43,20 @@ fn eval_one(scope: &Scope, entry: &str, text: &str, input: Option<&str>, reps: u
   }
 }
 
-fn eval_one_inner(scope: &Scope, entry: &str, text: &str, input: Option<&str>, reps: usize, want_ast: bool) -> J {
+thread_local! {
+  /// scope of another SHAPE (context-valued names bound to null, lists of contexts to []) under which every text is parsed
+  /// once before it is parsed under its own scope: a parse must depend on the text and on the scope it is given, not on
+  /// what the same text meant under another scope earlier
+  static PREPARSE: std::cell::RefCell<Option<Scope>> = std::cell::RefCell::new(None);
+}
+
+fn eval_one_inner(scope: &Scope, entry: &str, text: &str, input: Option<&str>, reps: usize, want_ast: bool, warm: Option<&Scope>) -> J {
+  PREPARSE.with(|p| {
+    if let Some(pre) = p.borrow().as_ref() {
+      let _ = std::panic::catch_unwind(std::panic::AssertUnwindSafe(|| parse_entry(pre, entry, text, input).is_ok()));
+      let _ = crate::LAST_PANIC.lock().ok().and_then(|mut g| g.take());
+    }
+  });
   let s0 = scope.to_string();
   let node = match parse_entry(scope, entry, text, input) {
     Ok(n) => n,
@@ -66,6 +79,12 @@ fn eval_one_inner(scope: &Scope, entry: &str, text: &str, input: Option<&str>, r
       return J::Object(out);
     }
   };
+  // `warm`: the prepared evaluator is used once before, over a scope that binds the same names to OTHER values; the
+  // evaluation that is judged is then its second use (what an evaluator remembers from its first use shows up here)
+  if let Some(w) = warm {
+    let _ = std::panic::catch_unwind(std::panic::AssertUnwindSafe(|| evaluator(w)));
+    let _ = crate::LAST_PANIC.lock().ok().and_then(|mut g| g.take());
+  }
   let v: Value = evaluator(scope);
   let s2 = scope.to_string();
   if s2 != s1 {
@@ -103,7 +122,11 @@ pub fn op_eval(case: &J) -> J {
   let text = s(case, "text").unwrap_or("");
   let reps = case.get("reps").and_then(|v| v.as_u64()).unwrap_or(1) as usize;
   let want_ast = case.get("ast").and_then(|v| v.as_bool()).unwrap_or(false);
-  eval_one_inner(&scope, entry, text, s(case, "input"), reps, want_ast)
+  let warm = case.get("warm_scope").and_then(|w| vj::to_scope(Some(w)).ok());
+  PREPARSE.with(|p| *p.borrow_mut() = case.get("preparse_scope").and_then(|w| vj::to_scope(Some(w)).ok()));
+  let r = eval_one_inner(&scope, entry, text, s(case, "input"), reps, want_ast, warm.as_ref());
+  PREPARSE.with(|p| *p.borrow_mut() = None);
+  r
 }
 
 /// {op:"evalmany", scope, entry, texts:[...], reps?}: a fresh scope per text (so a leak cannot
@@ -120,19 +143,23 @@ pub fn op_evalmany(case: &J) -> J {
     Ok(s) => s,
     Err(e) => return json!({ "harness_error": e }),
   };
+  let mut warm = case.get("warm_scope").and_then(|w| vj::to_scope(Some(w)).ok());
+  PREPARSE.with(|p| *p.borrow_mut() = case.get("preparse_scope").and_then(|w| vj::to_scope(Some(w)).ok()));
   for t in texts {
     let (text, input) = match t {
       J::String(s) => (s.as_str(), None),
       J::Array(a) if a.len() == 2 => (a[1].as_str().unwrap_or(""), a[0].as_str()),
       _ => ("", None),
     };
-    let r = eval_one(&scope, entry, text, input, reps, want_ast);
+    let r = eval_one(&scope, entry, text, input, reps, want_ast, warm.as_ref());
     let dirty = r.get("impure_parse").is_some() || r.get("impure_eval").is_some() || r.get("panic").is_some();
     rs.push(r);
     if fresh || dirty {
       scope = vj::to_scope(case.get("scope")).unwrap();
+      warm = case.get("warm_scope").and_then(|w| vj::to_scope(Some(w)).ok());
     }
   }
+  PREPARSE.with(|p| *p.borrow_mut() = None);
   json!({ "rs": rs })
 }
 
@@ -149,6 +176,11 @@ pub fn op_parse(case: &J) -> J {
       Ok(s) => s,
       Err(e) => return json!({ "harness_error": e }),
     };
+    // `preparse_scope`: the same text is parsed once before under a scope of another shape (see PREPARSE above)
+    if let Some(Ok(pre)) = case.get("preparse_scope").map(|w| vj::to_scope(Some(w))) {
+      let _ = std::panic::catch_unwind(std::panic::AssertUnwindSafe(|| parse_entry(&pre, entry, text, None).is_ok()));
+      let _ = crate::LAST_PANIC.lock().ok().and_then(|mut g| g.take());
+    }
     let s0 = scope.to_string();
     let r = std::panic::catch_unwind(std::panic::AssertUnwindSafe(|| parse_entry(&scope, entry, text, None)));
     match r {
@@ -306,4 +338,38 @@ pub fn op_history(case: &J) -> J {
   }
   let firsts: Vec<J> = first.iter().map(|((e, s), v)| json!([e, s, v])).collect();
   json!({"prep": prep, "observations": observations, "repeats": repeats, "violations": violations, "firsts": firsts})
+}
+
+/// {op:"scopehist", scope, steps:[ {"set":[[name, value],..]} | {"text":"..", "entry"?} ]}: ONE scope object lives through
+/// the whole history; `set` re-binds names in its top context (Scope::set_entry), `text` parses and evaluates over it.
+/// -> {"rs":[ null (for set) | {"v"|"perr"|"berr"|"panic", "impure_parse"?, "impure_eval"?} ]}
+pub fn op_scopehist(case: &J) -> J {
+  let scope = match vj::to_scope(case.get("scope")) {
+    Ok(s) => s,
+    Err(e) => return json!({ "harness_error": e }),
+  };
+  let empty = vec![];
+  let mut rs = vec![];
+  for st in case.get("steps").and_then(|v| v.as_array()).unwrap_or(&empty) {
+    if let Some(sets) = st.get("set").and_then(|v| v.as_array()) {
+      for pair in sets {
+        if let J::Array(p) = pair {
+          if p.len() == 2 {
+            match vj::to_value(&p[1]) {
+              Ok(v) => scope.set_entry(&vj::name_from_json(&p[0]), v),
+              Err(e) => return json!({ "harness_error": e }),
+            }
+            continue;
+          }
+        }
+        return json!({"harness_error": "bad set step"});
+      }
+      rs.push(J::Null);
+    } else if let Some(text) = st.get("text").and_then(|v| v.as_str()) {
+      rs.push(eval_one(&scope, s(st, "entry").unwrap_or("expr"), text, None, 1, false, None));
+    } else {
+      return json!({"harness_error": "bad step"});
+    }
+  }
+  json!({ "rs": rs })
 }
